@@ -495,6 +495,6 @@ pub fn run(r: &mut Runner) {
         }
         crate::hist::explore(r, "histories: sqrt/cbrt/hypot/powi", &groups, 3, &hist_judge, 14u64 << 55);
         // cross-family histories: the same judged calls, preceded by every other public function on the same operands
-        crate::hist::explore_mixed(r, "cross-family histories: any public call, then sqrt/cbrt/hypot/powi", &groups[..groups.len().min(2)], 2, &hist_judge, (14u64 << 55) + (1u64 << 53));
+        crate::hist::explore_mixed(r, "cross-family histories: any public call, then sqrt/cbrt/hypot/powi", &groups, 2, &hist_judge, (14u64 << 55) + (1u64 << 53));
     }
 }
